@@ -427,34 +427,9 @@ theorem progMask_iff (ctx : Ctx) (prog : List Prog) (htw : ∀ e ∈ Prog.listTa
       ibit_zero', Bool.false_or]
   rfl
 
-/-- `progDrivesP` against the positional `progDrives` of Spec/DomainSpec.lean -/
-theorem progDrivesP_eq (ctx : Ctx) (prog : List Prog) (i b : Nat) :
-    progDrivesP ctx prog i b = (progDrives ctx prog i b || (Prog.listTargets prog).any fun t => underPart t i b ctx) := by
-  unfold progDrivesP progDrives drivenP
-  induction Prog.listTargets prog with
-  | nil => rfl
-  | cons t ts ih =>
-    simp only [List.any_cons, ih]
-    cases drivenBy t i b ctx <;> cases underPart t i b ctx <;> simp
-
-/-- every operand bit of a part-select in the program's targets is also driven positionally (decidable; it fails only
-for targets in which an enclosing slice/concatenation window cannot reach a part-select, or a zero-width window is taken
-of one). Under it the positional `progDrives` is the code's notion. -/
-def PartsReached (ctx : Ctx) (prog : List Prog) : Prop :=
-  ∀ i, i < ctx.length → ∀ b, b < (ctx.shape i).width →
-    ((Prog.listTargets prog).any fun t => underPart t i b ctx) = true → progDrives ctx prog i b = true
-
-instance (ctx : Ctx) (prog : List Prog) : Decidable (PartsReached ctx prog) := by
-  unfold PartsReached; infer_instance
-
-/-- the masks of a lowered program against the Spec's current `progDrives`.
-(The only place where `PartsReached` is used: once `progDrives` is `progDrivesP`, this is `progMask_iff`.) -/
+/-- the masks of a lowered program are the Spec's `progDrives` -/
 theorem progMask_drives (ctx : Ctx) (prog : List Prog) (htw : ∀ e ∈ Prog.listTargets prog, e.twf ctx = true)
-    (hp : PartsReached ctx prog) (i b : Nat) (hi : i < ctx.length) (hb : b < (ctx.shape i).width) :
-    ibit ((progMask ctx prog).get i) b = progDrives ctx prog i b := by
-  rw [progMask_iff ctx prog htw, progDrivesP_eq]
-  cases h : (Prog.listTargets prog).any fun t => underPart t i b ctx with
-  | false => simp
-  | true => rw [hp i hi b hb h]; rfl
+    (i b : Nat) : ibit ((progMask ctx prog).get i) b = progDrives ctx prog i b :=
+  progMask_iff ctx prog htw i b
 
 end Amaranth
